@@ -259,8 +259,9 @@ Proof.
   - destruct (app (en s) && negb (running (en s)) && fdone (ch s) (lastf (ch s)) && Nat.eqb (cprq (cp s)) 0); split; assumption.
   - destruct (negb (app (en s)) && negb (lclosed (en s))); split; assumption.
   - (* LoopStep *)
+    unfold loop_step.
     destruct (lclosed (en s)); [split; assumption|]. destruct (loopq (en s)); [split; assumption|].
-    destruct (app (en s) && (running (en s) || negb (fdone (ch s) (lastf (ch s))))); [|split; assumption].
+    destruct (get_app_or_none _ _ && (running (en s) || negb (fdone (ch s) (lastf (ch s))))); [|split; assumption].
     pose proof (submit_CI (running (en s)) (cpr_pending (cp s)) (PWrite t) (ch s) (out s) I) as H.
     destruct (submit (running (en s)) (cpr_pending (cp s)) (PWrite t) (ch s) (out s)) as [c' o'] eqn:E.
     split; [exact H|]. cbn [cp ch]. apply (submit_cpr_wait s (PWrite t) c' o' I Wt E).
